@@ -8,3 +8,4 @@ Definition descriptors_kinds : list ikind := [Unique true; Plain true; Plain tru
 Definition states_kinds : list ikind := [Unique true; Plain false].
 (* descriptor_handle<-obj.DescriptorHandle, handle<-obj.Handle, NODETYPE<-obj.NODETYPE *)
 Definition multistates_kinds : list ikind := [Plain true; Unique false; Plain false].
+(* public mutating entry points driven by the op generator (model op <- methods): add <- add_object, add_object_no_lock; addm <- add_objects, add_objects_no_lock; remove <- remove_object, remove_object_no_lock; removem <- remove_objects, remove_objects_no_lock; update <- update_object, update_object_no_lock; updatem <- update_objects, update_objects_no_lock; clear <- clear; setver <- set_version *)
